@@ -57,6 +57,7 @@ func (Prop) Plan(tier string) []lib.Workload {
 		{Name: "pairs", Cases: len(pairCases), CaseTimeout: 10 * time.Minute, HangIsViolation: true, MinNontrivial: 1000},
 		{Name: "multi", Cases: t.multiCases, CaseTimeout: 10 * time.Minute, HangIsViolation: true, MinNontrivial: 1000},
 		{Name: "tryerr", Cases: len(tryErrCases), CaseTimeout: 10 * time.Minute, HangIsViolation: true, Batches: len(tryErrCases)},
+		{Name: "cancel", Cases: len(cancelCases), CaseTimeout: 10 * time.Minute, HangIsViolation: true, MinNontrivial: 20},
 		{Name: "stress", Cases: t.stressCases, Race: true, CaseTimeout: 10 * time.Minute, HangIsViolation: true, MinNontrivial: t.stressCases / 4},
 	}
 }
@@ -75,6 +76,8 @@ func (Prop) RunCase(c *lib.Case) {
 		explore(c, multiCase(c.Rng), t.multiDFS, t.multiRnd)
 	case "tryerr":
 		explore(c, tryErrCases[c.Index], t.tryErrDFS, 0)
+	case "cancel":
+		explore(c, cancelCases[c.Index], t.pairDFS, t.pairRnd)
 	case "stress":
 		runStress(c)
 	}
